@@ -9,6 +9,8 @@ seed="$(cd "$1" && pwd)"
 demo=$(ls "$seed"/*_test.go "$seed"/demo*.go 2>/dev/null | head -1)
 [ -f "$seed/patch.diff" ] && [ -n "$demo" ] || { echo "CONFIRM-ERROR missing patch or demo in $seed"; exit 2; }
 target=$(grep -m1 -oE "[Pp]lace (this file|it) in(to)? [\`']?[A-Za-z0-9_./-]+" "$demo" | awk '{print $NF}' | tr -d "\`'" | sed 's:/$::')
+t2=$(grep -m1 -E "go test" "$demo" | grep -oE "\./[A-Za-z0-9_/.-]+" | tail -1 | sed 's:^\./::; s:/$::')
+if [ -n "$t2" ] && [ "$t2" != "..." ]; then target="$t2"; fi
 if [ -f "$seed/meta.json" ]; then t=$(jq -r '.demo_dir // empty' "$seed/meta.json"); [ -n "$t" ] && target="$t"; fi
 runpat=$(grep -m1 -oE "\-run '?[A-Za-z0-9_|^\$()]+'?" "$demo" | awk '{print $2}' | tr -d "'")
 tags=$(grep -m1 -oE "\-tags[= ]'?[a-z, ]+'?" "$demo" | sed -E "s/-tags[= ]//; s/'//g")
